@@ -1,15 +1,11 @@
 package main
 
 import (
-	"bufio"
-	"bytes"
-	"encoding/binary"
 	"fmt"
 	"reflect"
 	"sort"
 	"strings"
 
-	"github.com/kubeshark/base/pkg/api"
 	kafkaExt "github.com/kubeshark/base/pkg/extensions/kafka"
 	kgoproto "github.com/segmentio/kafka-go/protocol"
 	kgoapiversions "github.com/segmentio/kafka-go/protocol/apiversions"
@@ -20,7 +16,7 @@ import (
 	kgometadata "github.com/segmentio/kafka-go/protocol/metadata"
 	kgoproduce "github.com/segmentio/kafka-go/protocol/produce"
 
-	"ksverif/harness/internal/mock"
+	"ksverif/harness/internal/kprobe"
 )
 
 func init() {
@@ -50,73 +46,6 @@ var kafkaSampleVersions = func() []int {
 	}
 	return v
 }()
-
-func kafkaReqBytes(api, ver, corr int) []byte {
-	b := &bytes.Buffer{}
-	_ = binary.Write(b, binary.BigEndian, int32(10))
-	_ = binary.Write(b, binary.BigEndian, int16(api))
-	_ = binary.Write(b, binary.BigEndian, int16(ver))
-	_ = binary.Write(b, binary.BigEndian, int32(corr))
-	_ = binary.Write(b, binary.BigEndian, int16(0))
-	return b.Bytes()
-}
-
-func kafkaRespBytes(corr int) []byte {
-	b := &bytes.Buffer{}
-	_ = binary.Write(b, binary.BigEndian, int32(4))
-	_ = binary.Write(b, binary.BigEndian, int32(corr))
-	return b.Bytes()
-}
-
-// kafkaProbe returns the request payload type and the response payload type selected for
-// (api, ver); nil when nothing was registered / emitted.
-func kafkaProbe(apiKey, ver int) (req, resp reflect.Type, err error) {
-	defer func() {
-		if r := recover(); r != nil {
-			err = fmt.Errorf("probe api=%d version=%d panicked: %v", apiKey, ver, r)
-		}
-	}()
-	d := kafkaExt.NewDissector()
-	m := d.NewResponseRequestMatcher()
-	m.SetMaxTry(2)
-	out := make(chan *api.OutputChannelItem, 16)
-	conn := mock.NewConn(d, m, &api.AppStats{}, out, "pcap0", "10.0.0.1", "40000", "10.0.0.2", "9092")
-	_ = d.Dissect(bufio.NewReader(bytes.NewReader(kafkaReqBytes(apiKey, ver, 7))), conn.Client)
-	m.GetMap().Range(func(k, v interface{}) bool {
-		if r, ok := v.(*kafkaExt.Request); ok && r.Payload != nil {
-			req = reflect.TypeOf(r.Payload)
-		}
-		return true
-	})
-	_ = d.Dissect(bufio.NewReader(bytes.NewReader(kafkaRespBytes(7))), conn.Server)
-	close(out)
-	for it := range out {
-		p, ok := it.Pair.Response.Payload.(kafkaExt.KafkaPayload)
-		if !ok {
-			return nil, nil, fmt.Errorf("response payload is %T", it.Pair.Response.Payload)
-		}
-		w, ok := p.Data.(*kafkaExt.KafkaWrapper)
-		if !ok {
-			return nil, nil, fmt.Errorf("response data is %T", p.Data)
-		}
-		r, ok := w.Details.(kafkaExt.Response)
-		if !ok {
-			return nil, nil, fmt.Errorf("response details is %T", w.Details)
-		}
-		if r.Payload != nil {
-			resp = reflect.TypeOf(r.Payload)
-		}
-	}
-	for _, t := range []*reflect.Type{&req, &resp} {
-		if *t != nil {
-			if (*t).Kind() != reflect.Ptr || (*t).Elem().Kind() != reflect.Struct {
-				return nil, nil, fmt.Errorf("payload type %v is not a pointer to a struct", *t)
-			}
-			*t = (*t).Elem()
-		}
-	}
-	return
-}
 
 type kafkaTyGen struct {
 	defs  map[string]string // lean def name -> body
@@ -212,7 +141,7 @@ func genKafkaLayouts() (string, error) {
 	for apiKey := -1; apiKey <= 51; apiKey++ {
 		var prevReq, prevResp reflect.Type
 		for _, ver := range append(append([]int{-32768}, kafkaSampleVersions...), 32767) {
-			rq, rs, err := kafkaProbe(apiKey, ver)
+			rq, rs, err := kprobe.Probe(apiKey, ver)
 			if err != nil {
 				return "", err
 			}
